@@ -58,9 +58,9 @@ func (s *Server) cmdScan(msg *Message) (res resp.Value, err error) {
 		if sw.output == outputCount && len(sw.wheres) == 0 &&
 			len(sw.whereins) == 0 && len(sw.whereevals) == 0 &&
 			sw.globEverything {
-			count := sw.col.Count() - int(args.cursor)
-			if count < 0 {
-				count = 0
+			count := 0
+			if args.cursor < uint64(sw.col.Count()) {
+				count = sw.col.Count() - int(args.cursor)
 			}
 			sw.count = uint64(count)
 			if sw.count > sw.limit {
